@@ -78,7 +78,11 @@ struct Cfg {
     /// string arguments with multi-byte characters
     wide: bool,
     /// 1: the function's result type id is DECLARED as a 32-bit int; 2: declared as void; 3: the function was ended and
-    /// re-selected, the call goes into a block begun afterwards
+    /// re-selected, the call goes into a block begun afterwards; 4: an EARLIER function exists whose blocks carry as
+    /// labels every id the measured call passes (ids of another function's blocks are just ids); 5: an earlier, finished
+    /// function named "main" exists and is switched to BY NAME while the block of the second function is still open: no
+    /// block of "main" is open, so every block-level call must fail and change nothing; 6 / 7: the function's type id is
+    /// declared as an OpTypeFunction returning a declared 32-bit int / void
     fn_kind: u8,
     /// a second, terminated block exists behind the one the call is made into (with reselect_terminated: the FIRST block is re-selected)
     two_blocks: bool,
@@ -180,9 +184,46 @@ fn check_site(site: &CallSite, cfg: &Cfg) -> SiteResult {
             }
         }
         if block_ctx {
+            if cfg.fn_kind == 4 || cfg.fn_kind == 5 {
+                let f0 = b.id();
+                b.begin_function(rty, Some(f0), spirv::FunctionControl::NONE, fty).map_err(|e| ("setup".to_string(), format!("{:?}", e)))?;
+                let mut labels: Vec<u32> = vec![];
+                if cfg.fn_kind == 4 {
+                    for (i, p) in site.params.iter().enumerate() {
+                        if p.ty == Ty::InsertPoint || is_result_id_param(p) {
+                            continue;
+                        }
+                        for a in args.passed(i) {
+                            if let Arg::IdRef(x) | Arg::IdScope(x) | Arg::IdMemSem(x) = a {
+                                if !labels.contains(&x) {
+                                    labels.push(x);
+                                }
+                            }
+                        }
+                    }
+                }
+                if labels.is_empty() {
+                    labels.push(b.id());
+                }
+                for l in labels {
+                    b.begin_block(Some(l)).map_err(|e| ("setup".to_string(), format!("{:?}", e)))?;
+                    b.ret().map_err(|e| ("setup".to_string(), format!("{:?}", e)))?;
+                }
+                b.end_function().map_err(|e| ("setup".to_string(), format!("{:?}", e)))?;
+                b.name(f0, "main");
+                b.name(fid, "helper");
+            }
             match cfg.fn_kind {
                 1 => {
                     b.type_int_id(Some(rty), 32, 0);
+                }
+                6 => {
+                    b.type_int_id(Some(rty), 32, 0);
+                    b.type_function_id(Some(fty), rty, vec![]);
+                }
+                7 => {
+                    b.type_void_id(Some(rty));
+                    b.type_function_id(Some(fty), rty, vec![rty]);
                 }
                 2 => {
                     b.type_void_id(Some(rty));
@@ -245,6 +286,26 @@ fn check_site(site: &CallSite, cfg: &Cfg) -> SiteResult {
                 let l2 = b.id();
                 b.begin_block(Some(l2)).map_err(|e| ("setup".to_string(), format!("{:?}", e)))?;
             }
+        }
+        if block_ctx && cfg.fn_kind == 5 {
+            // switch to the finished function by name while this function's block is open
+            b.select_function_by_name("main").map_err(|e| ("setup".to_string(), format!("select_function_by_name: {:?}", e)))?;
+            let before = snap(b.module_ref());
+            let ret = (site.call)(&mut b, &args);
+            let failed = matches!(ret, Out::ResWord(Err(_)) | Out::ResUnit(Err(_)));
+            let fallible = matches!(ret, Out::ResWord(_) | Out::ResUnit(_));
+            if fallible && needs_block(site) {
+                let after = snap(b.module_ref());
+                if !failed || after != before {
+                    let gi = g.inst(site.opcode);
+                    out.c16.push(viol(
+                        format!("C16:builder-ends-block:after-switch-by-name:{}", if g.in_class("terminator", site.opcode) { "terminator" } else { "instruction" }),
+                        format!("after select_function_by_name moved to a finished function (no block of it is open) Builder::{} (Op{}) {} and the module {}", site.name, gi.name, if failed { "failed" } else { "was accepted" }, if after != before { "changed: a block that is not under construction was extended / ended" } else { "did not change" }),
+                        json!({"kind": "builder-call", "method": site.name}),
+                    ));
+                }
+            }
+            return Ok(());
         }
         let before = flatten(&snap(b.module_ref()));
         let ret = (site.call)(&mut b, &args);
@@ -310,8 +371,8 @@ fn check_site(site: &CallSite, cfg: &Cfg) -> SiteResult {
             return Err(("operands".into(), format!("emitted {} ; the call's arguments in grammar order are {}", emitted.short(), expected.short())));
         }
         // the block that was selected when the measured call was made, and its length then (insertion at the end)
-        let cur_block = if cfg.two_blocks { 0 } else { before.iter().filter(|x| x.0.ends_with(".label")).count().saturating_sub(1) };
-        let want_path = if in_blk { format!("f0.b{}", cur_block) } else { where_expected(site, false) };
+        let cur_block = if cfg.two_blocks || cfg.fn_kind == 4 { 0 } else { before.iter().filter(|x| x.0.ends_with(".label")).count().saturating_sub(1) };
+        let want_path = if in_blk { format!("f{}.b{}", if cfg.fn_kind == 4 { 1 } else { 0 }, cur_block) } else { where_expected(site, false) };
         if path != want_path {
             return Err(("placement".into(), format!("emitted into {}, expected {}", path, want_path)));
         }
@@ -447,7 +508,7 @@ fn configs(site: &CallSite, tier: Tier) -> Vec<Cfg> {
         v.push(Cfg { two_blocks: true, reselect_terminated: true, ..base.clone() });
     }
     if needs_block(site) {
-        for fn_kind in 1..=3 {
+        for fn_kind in 1..=7 {
             v.push(Cfg { fn_kind, ..base.clone() });
         }
         for pred in 1..=4 {
@@ -742,7 +803,7 @@ fn c12_sweep(sites: &[&CallSite]) -> (u64, Vec<Viol>) {
         .par_iter()
         .map(|site| {
             let mut out = vec![];
-            for ctx in 0..8 {
+            for ctx in 0..12 {
                 // 0: nothing open; 1: function open, no block; 2: block open and then closed by a terminator;
                 // 3: block open (holding one instruction): the call succeeds, appends exactly one instruction to that
                 //    block, and closes the block iff the opcode is a block-termination instruction of the specification
@@ -756,6 +817,27 @@ fn c12_sweep(sites: &[&CallSite]) -> (u64, Vec<Viol>) {
                         b.id();
                     }
                     b.capability(spirv::Capability::Shader);
+                    // contexts 8..11: as 3, but the function's result type and function type are DECLARED: the function
+                    // returns a 32-bit int / void / a float / a bool (whether a block instruction or terminator is accepted
+                    // depends on the selection only, never on what the function is declared to return)
+                    match ctx {
+                        8 => {
+                            b.type_int_id(Some(1), 32, 0);
+                        }
+                        9 => {
+                            b.type_void_id(Some(1));
+                        }
+                        10 => {
+                            b.type_float_id(Some(1), 32, None);
+                        }
+                        11 => {
+                            b.type_bool_id(Some(1));
+                        }
+                        _ => {}
+                    }
+                    if ctx >= 8 {
+                        b.type_function_id(Some(2), 1, vec![]);
+                    }
                     if ctx >= 1 {
                         b.begin_function(1, None, spirv::FunctionControl::NONE, 2).map_err(|e| format!("{:?}", e))?;
                     }
@@ -768,7 +850,7 @@ fn c12_sweep(sites: &[&CallSite]) -> (u64, Vec<Viol>) {
                         // contexts 3..7: the block's last instruction is OpNop / OpSelectionMerge / OpLoopMerge / OpLine / OpNoLine
                         b.begin_block(None).map_err(|e| format!("{:?}", e))?;
                         match ctx {
-                            3 => b.nop().map_err(|e| format!("{:?}", e))?,
+                            3 | 8..=11 => b.nop().map_err(|e| format!("{:?}", e))?,
                             4 => b.selection_merge(9001, spirv::SelectionControl::NONE).map_err(|e| format!("{:?}", e))?,
                             5 => b.loop_merge(9001, 9002, spirv::LoopControl::NONE, vec![]).map_err(|e| format!("{:?}", e))?,
                             6 => b.line(9003, 7, 8),
@@ -848,7 +930,7 @@ fn c12_sweep(sites: &[&CallSite]) -> (u64, Vec<Viol>) {
     for v in res {
         all.extend(v);
     }
-    (sites.len() as u64 * 8, all)
+    (sites.len() as u64 * 12, all)
 }
 
 fn main() {
@@ -974,6 +1056,58 @@ fn main() {
         states += s2;
         trans += t2;
         complete += c2;
+    }
+    // ---- extended instructions through imports: for every set name (the two sets the grammar knows, non-semantic and
+    //      debug-info sets, prefixes of them, an unknown one) x every instruction number 0..=210 (+ extremes) x operand
+    //      lists of 0 / 5 small / 6 larger ids: import, second import, function, block, ext_inst, ret -> assemble -> load ->
+    //      the same module, the instruction in the same block with the same operands
+    {
+        let names = ["OpenCL.std", "GLSL.std.450", "NonSemantic.Shader.DebugInfo.100", "NonSemantic.Shader.DebugInfo.", "NonSemantic.DebugPrintf", "OpenCL.DebugInfo.100", "DebugInfo", "NonSemantic.", "x", ""];
+        let work2: Vec<(usize, u32, usize)> = (0..names.len()).flat_map(|ni| (0..=210u32).chain([255, 256, 1000, 0x7FFF_FFFF, 0xFFFF_FFFF]).flat_map(move |n| (0..3usize).map(move |v| (ni, n, v)))).collect();
+        let res2: Vec<Option<Viol>> = work2
+            .par_iter()
+            .map(|&(ni, n, v)| {
+                let rep = json!({"kind": "builder-ext-inst", "set": names[ni], "number": n, "operands": v});
+                let r = guarded(|| -> Result<(), String> {
+                    let mut b = Builder::new();
+                    b.set_version(1, 5);
+                    b.capability(spirv::Capability::Shader);
+                    let other = b.ext_inst_import(if ni == 0 { "GLSL.std.450" } else { "OpenCL.std" });
+                    let set = b.ext_inst_import(names[ni]);
+                    b.memory_model(spirv::AddressingModel::Logical, spirv::MemoryModel::GLSL450);
+                    let void = b.type_void();
+                    let fty = b.type_function(void, vec![]);
+                    b.begin_function(void, None, spirv::FunctionControl::NONE, fty).map_err(|e| format!("{:?}", e))?;
+                    b.begin_block(None).map_err(|e| format!("{:?}", e))?;
+                    let ops: Vec<dr::Operand> = match v {
+                        0 => vec![],
+                        1 => (1..=5u32).map(dr::Operand::IdRef).collect(),
+                        _ => (0..6u32).map(|k| dr::Operand::IdRef(set + 9 + k)).collect(),
+                    };
+                    b.ext_inst(void, None, set, n, ops.clone()).map_err(|e| format!("{:?}", e))?;
+                    b.ext_inst(void, None, other, n, ops).map_err(|e| format!("{:?}", e))?;
+                    b.ret().map_err(|e| format!("{:?}", e))?;
+                    b.end_function().map_err(|e| format!("{:?}", e))?;
+                    let m = b.module();
+                    let built = snap(&m);
+                    let m2 = dr::load_words(m.assemble()).map_err(|e| format!("the assembled module does not load: {}", e))?;
+                    let loaded = snap(&m2);
+                    if loaded != built {
+                        return Err(format!("loaded module {} differs from the built one {}", loaded.brief(), built.brief()));
+                    }
+                    Ok(())
+                });
+                match r {
+                    Err(p) => Some(viol("C06:ext-inst:panic", format!("ext_inst {} of set {:?}: panic {}", n, names[ni], p), rep)),
+                    Ok(Err(why)) => Some(viol(format!("C06:ext-inst:{}", why.split(':').next().unwrap_or("").split(' ').take(4).collect::<Vec<_>>().join("-")), format!("ext_inst number {} on an import of {:?} with operand list {}: {}", n, names[ni], v, why), rep)),
+                    Ok(Ok(())) => None,
+                }
+            })
+            .collect();
+        run.outcome("ext_inst_through_imports", work2.len() as u64);
+        for v in res2.into_iter().flatten() {
+            run.add(v);
+        }
     }
     run.outcome("history_states", states);
     run.outcome("complete_histories_roundtripped", complete);
